@@ -52,6 +52,12 @@ def endpoints(uid, vid=""):
         add("ListObjectVersions", "GET", "/bk1", {"versions": ""}, b"", None, "s3:ListBucketVersions", b, "READ", False, "s3:ListBucket")
     add("GetObjectRetention", "GET", "/bk1/priv/o1", {"retention": ""}, b"", None, "s3:GetObjectRetention", o, "READ", False)
     add("GetObjectLegalHold", "GET", "/bk1/priv/o1", {"legal-hold": ""}, b"", None, "s3:GetObjectLegalHold", o, "READ", False)
+    # directory objects: the key, and with it the policy resource, ends in "/"
+    add("HeadObject-dirobj", "HEAD", "/bk1/priv/dir/", None, b"", None, "s3:GetObject", o, "READ", False)
+    add("GetObjectTagging-dirobj", "GET", "/bk1/priv/dir/", {"tagging": ""}, b"", None, "s3:GetObjectTagging", o, "READ", False)
+    add("PutObjectTagging-dirobj", "PUT", "/bk1/priv/dir/", {"tagging": ""}, TAGGING, None, "s3:PutObjectTagging", o, "WRITE", True)
+    add("PutObject-dirobj", "PUT", "/bk1/priv/newdir/", None, b"", None, "s3:PutObject", o, "WRITE", True)
+    add("DeleteObject-dirobj", "DELETE", "/bk1/priv/dir2/", None, b"", None, "s3:DeleteObject", o, "WRITE", True)
     add("GetBucketCors", "GET", "/bk1", {"cors": ""}, b"", None, "s3:GetBucketCORS", b, "READ", False)
     add("DeleteBucketCors", "DELETE", "/bk1", {"cors": ""}, b"", None, "s3:PutBucketCORS", b, "WRITE", True)
     add("DeleteBucketOwnershipControls", "DELETE", "/bk1", {"ownershipControls": ""}, b"", None, "s3:PutBucketOwnershipControls", b, "WRITE", True)
@@ -84,6 +90,8 @@ def setup(site, g):
     ok &= s3c.Client(g.port, "adm", "adm-secret").req("PUT", "/bk2").status == 200
     for k in ("priv/o1", "priv/o2", "pub/o1", "pub/o2", "obj"):
         ok &= owner.req("PUT", "/bk1/" + k, body=b"data-" + k.encode()).status == 200
+    for k in ("priv/dir/", "priv/dir2/"):
+        ok &= owner.req("PUT", "/bk1/" + k, body=b"").status == 200
     ok &= root.req("PUT", "/bk2/other", body=b"other-bucket-data").status == 200
     ok &= root.req("PUT", "/bk1", query={"ownershipControls": ""}, body=OWNERSHIP).status in (200, 204)
     r = owner.req("POST", "/bk1/priv/mp", query={"uploads": ""})
@@ -173,6 +181,9 @@ def run(chk):
                 ("policy denies alice first and then allows the action to everybody", policy([deny("alice", ep["action"], res), allow("*", ep["action"], res)]), False),
                 ("policy allows the action to bob only", policy([allow("bob", ep["action"], res)]), False),
             ]
+            if ep["obj"] and ep["path"].endswith("/"):
+                configs.append(("policy allows the action on the key without its trailing slash only", policy([allow("alice", ep["action"], res.rstrip("/"))]), False))
+                configs.append(("policy allows the action to everybody but denies alice everything below the key's parent prefix", policy([allow("*", ep["action"], res), deny("alice", ep["action"], res.rstrip("/").rsplit("/", 1)[0] + "/*")]), False))
             for label, doc, exp in configs:
                 if not ep["obj"] and "another resource" in label:
                     continue          # a bucket-level action cannot name another resource inside this bucket's policy
@@ -180,6 +191,15 @@ def run(chk):
                     chk.tie("owner can install the policy %s" % doc, False, label)
                     continue
                 attempt(ep, alice, label, exp, doc.decode())
+            # a statement whose Effect is not spelled as the policy language spells it: refused by PutBucketPolicy, or, when it is
+            # accepted, enforced (an accepted and then ignored Deny lets the denied account in)
+            for eff in ("deny", "DENY"):
+                dn = deny("alice", ep["action"], res); dn["Effect"] = eff
+                doc = policy([allow("*", ep["action"], res), dn])
+                if set_policy(doc):
+                    attempt(ep, alice, "policy allows the action to everybody and has a statement with Effect %r that names alice (PutBucketPolicy accepted it)" % eff, False, doc.decode())
+                else:
+                    chk.count("policy-refused:effect-%s" % eff)
         # ACL, no policy
         set_policy(None)
         for grant, perms in (("", set()), ("x-amz-grant-read", {"READ"}), ("x-amz-grant-write", {"WRITE"}), ("x-amz-grant-read-acp", {"READ_ACP"}),
